@@ -23,7 +23,7 @@ CORPUS = os.path.join(vlib.ROOT, 'corpus', PROP)
 INIT_KEYS = ['version', 'entry', 'en', 'rsrc2', 'kernel_object', 'kernarg', 'grid', 'wg', 'packet_addr',
              'init_exec', 'first_wi', 'id', 'sx', 'sy']
 FLAT_KEYS = ['lg', 'cdna3', 'op', 'exec', 'saddr', 'off13', 'addr_v', 'data_v', 'dst_v', 'sbase', 'vaddr',
-             'data', 'base', 'mem', 'perm', 'class']
+             'data', 'base', 'mem', 'perm', 'class', 'kind']
 SMEM_KEYS = ['lg', 'op', 'sbase_r', 'sdata', 'imm', 'off_r', 'off', 'base_v', 'base', 'mem', 'perm', 'class']
 KEYS = {'init': INIT_KEYS, 'flat': FLAT_KEYS, 'smem': SMEM_KEYS}
 CHECKER = {'init': ('imismatches', 'icase'), 'flat': ('fmismatches', 'fcase'), 'smem': ('smismatches', 'scase')}
@@ -88,12 +88,65 @@ def monitor_init(c):
     return None
 
 
+def acc_size(op):
+    return 1 if op in (16, 17, 24) else 2 if op in (18, 19, 26) else 4
+
+
+def emu_bytes(c):
+    """byte addresses the real emulator ALU accessed (start of every storage access it made, extent by opcode)"""
+    rc = {21: 2, 29: 2, 22: 3, 30: 3, 23: 4, 31: 4}.get(c['op'], 1)
+    n = acc_size(c['op']) * rc
+    return set(a + i for a, _ in (c.get('emu_acc') or []) for i in range(n))
+
+
+def timing_bytes(c):
+    """byte addresses the timing transactions touch: loads = the bytes the lane information selects from the
+    line responses, stores = the bytes with their dirty-mask bit set"""
+    out = set()
+    if c['op'] <= 23:
+        n = acc_size(c['op'])
+        for t in c.get('txns') or []:
+            for _, _, o in t['lanes']:
+                out.update(t['line'] + o + i for i in range(n))
+    else:
+        for r in c.get('wreqs') or []:
+            out.update(r['line'] + i for i, d in enumerate(r['mask']) if d)
+    return out
+
+
+def saddr_stress(c):
+    """SAddr mode with an active lane whose 32-bit VGPR offset + immediate leaves [0, 2^32): 'neg' / 'ovf'"""
+    if not c.get('mode'):
+        return None
+    imm = c['off13']
+    for l in range(64):
+        if (c['exec'] >> l) & 1:
+            v = c['vaddr'][l] & 0xFFFFFFFF
+            if v + imm < 0:
+                return 'neg'
+            if v + imm >= 1 << 32:
+                return 'ovf'
+    return None
+
+
 def monitor_flat(c):
     load = c['op'] <= 23
     if load:
         same = c['emu_ok'] and c['treg_ok'] and c['emu'] == c['treg']
     else:
         same = c['emu_ok'] and c['wreq_ok'] and c['emu'] == c['tmem']
+    if c['emu_ok'] and (c['txn_ok'] if load else c['wreq_ok']):
+        # addresses: the timing transactions must touch exactly the bytes the emulator accesses
+        eb, tb = emu_bytes(c), timing_bytes(c)
+        if eb != tb:
+            only_e, only_t = sorted(eb - tb), sorted(tb - eb)
+            what = 'FLAT opcode %d (%s, SADDR field %d, offset:%d, lg=%d, exec=0x%x): timing transactions and emulator touch different bytes: ' % (
+                c['op'], 'cdna3' if c['cdna3'] else 'gcn3', c['saddr'], c['off13'], c['lg'], c['exec'])
+            if only_e:
+                what += 'emulator accesses 0x%x (%d bytes in no transaction) ' % (only_e[0], len(only_e))
+            if only_t:
+                what += 'timing touches 0x%x (%d bytes the emulator does not access)' % (only_t[0], len(only_t))
+            return (what, None)
     if same:
         return None
     known = None
@@ -278,7 +331,7 @@ def main(argv):
                    'memory between compute unit and storage (caches, TLB, DRAM, ROB) abstracted: a line read returns the line, a masked line write updates the dirty bytes',
                    'instruction issue, scoreboard, wait counts: not modelled here (C14-C17)']
     rep.assumptions = ['PARTIAL: end-to-end equality of whole programs is only sampled (differential runs), not proved',
-                       'theorems: FLAT addresses such that no dword of an access crosses a cache line; scalar loads dword aligned; lane address arithmetic without 64-bit wrap-around']
+                       'theorems: FLAT addresses such that no dword of an access crosses a cache line; scalar loads dword aligned; the lane base address is computed mod 2^64 on both sides (timing_flat_addr / emu_flat_addr), the per-register addr + 4*j without 64-bit wrap-around']
     thorough = vlib.tier() == 'thorough'
     counts = {'init': 1500 if thorough else 200, 'flat': 1500 if thorough else 150, 'smem': 800 if thorough else 100}
 
@@ -363,6 +416,16 @@ def main(argv):
             rep.coverage['flat_by_opcode'] = dict(collections.Counter(str(c['op']) for c in cases))
             rep.coverage['flat_transactions_hist'] = dict(collections.Counter(
                 str(len(c.get('txns') or c.get('wreqs') or [])) for c in cases))
+            rep.coverage['flat_address_layout'] = dict(collections.Counter(
+                '%s/%s/%s' % ('saddr' if c.get('mode') else 'off', c.get('kind') or 'corpus', 'cdna3' if c['cdna3'] else 'gcn3') for c in cases))
+            stress = collections.Counter('%s/%s/%s' % ('load' if c['op'] <= 23 else 'store', saddr_stress(c), 'cdna3' if c['cdna3'] else 'gcn3')
+                                         for c in cases if saddr_stress(c))
+            rep.coverage['flat_saddr_vgpr_plus_imm_outside_32bit'] = dict(stress)
+            rep.coverage['flat_window_across_4GiB'] = sum(1 for c in cases if (c['base'] >> 32) != ((c['base'] + len(c['mem']) - 1) >> 32))
+            if replay is None:
+                need = ['load/neg/gcn3', 'store/neg/gcn3', 'load/neg/cdna3', 'store/neg/cdna3']
+                rep.obligation('generator reaches SAddr-mode loads and stores (both architectures) whose negative immediate exceeds an active '
+                               'lane\'s VGPR offset: %s' % {k: stress.get(k, 0) for k in need}, all(stress.get(k, 0) > 0 for k in need))
         if mode == 'smem':
             rep.coverage['smem_pieces_hist'] = dict(collections.Counter(str(len(c.get('pieces') or [])) for c in cases))
         if mode == 'init':
